@@ -4,12 +4,19 @@
 package keyfile
 
 // C39: loading a key file yields a usable key or an error, never (nil, nil).
-// os.Stat / os.ReadFile / os.WriteFile / os.IsNotExist return arbitrary results
-// (every file-system state), keypem.ParsePrivKeyPem may return (nil, nil) for
+// The file system is ghost state (fsExists/fsData, /verif/specs/os.spec): arbitrary at entry,
+// changed only by this process's WriteFile; keypem.ParsePrivKeyPem may return (nil, nil) for
 // data without a PEM block.
 //@ func OpenOrWritePrivKey
 //@   noframe
 //@   ensures ret1 == nil ==> ret0 != nil
 // An existing file is never treated as absent: success on an existing path means the key was
 // parsed from that file's contents (an empty or non-key file is an error).
-//@   ensures ret1 == nil && fileExists(privKeyPath) ==> pemPrivKeyOK(fileData(privKeyPath))
+//@   ensures ret1 == nil && old(fsExists[privKeyPath]) ==> pemPrivKeyOK(old(fsData[privKeyPath])) && fsExists[privKeyPath] && fsData[privKeyPath] == old(fsData[privKeyPath])
+// A missing file is created: on success it exists and holds exactly the PEM encoding made of the
+// returned key (the bytes handed to WriteFile are MarshalPrivKeyPem's result for that key).
+//@   assert at call keypem.MarshalPrivKeyPem: same(arg0, privKey)
+//@   assert at call os.WriteFile: arg0 == privKeyPath && same(arg1, dat)
+//@   assert at exit: ret1 == nil && !old(fsExists[privKeyPath]) ==> called(WriteFile) && fsExists[privKeyPath] && fsData[privKeyPath] == atcall(os.WriteFile, content(arg1)) && same(ret0, privKey)
+// no other path is touched
+//@   ensures forall p string :: p != privKeyPath ==> fsExists[p] == old(fsExists[p]) && fsData[p] == old(fsData[p])
